@@ -477,6 +477,14 @@ def edge_only_errors(fn, block, k, callvar=None):
                             e[l["id"]] = -strip(r["e"])["v"]
                         else:
                             e[l["id"]] = None
+                elif n.get("k") == "bin" and n["op"] in ("+=", "-=", "|=", "&=", "^=", "<<=", ">>=", "*=", "/=", "%="):
+                    l = strip(n["l"])
+                    if l is not None and l.get("k") == "var" and "id" in l:
+                        e[l["id"]] = None
+                elif n.get("k") == "un" and n["op"] in ("++", "--", "post++", "post--", "&"):
+                    l = strip(n["e"])
+                    if l is not None and l.get("k") == "var" and "id" in l:
+                        e[l["id"]] = None
             if x.get("k") == "ret":
                 rv = strip(x.get("e")) if x.get("e") is not None else None
                 if rv is None:
@@ -496,6 +504,27 @@ def edge_only_errors(fn, block, k, callvar=None):
                 done = True
                 break
         if done:
+            continue
+        t_ = bb.get("term")
+        if t_ is not None and "c" in t_ and len(bb["succ"]) == 2 and t_.get("k") != "switch":
+            # a branch on a local flag whose constant is known on this path (`found = 1; ... if (found)`) is followed one way
+            import re as _re
+            for k_, sc_ in enumerate(bb["succ"]):
+                if sc_.get("b") is None:
+                    continue
+                feas = True
+                for (txt, tr, nd) in _cond_atoms(t_["c"], k_ == 0):
+                    v_ = strip(nd)
+                    if v_ is not None and v_.get("k") == "var" and isinstance(e.get(v_.get("id")), int):
+                        if (e[v_["id"]] != 0) != tr:
+                            feas = False
+                    elif v_ is not None and v_.get("k") == "bin" and v_["op"] in ("==", "!=") and (strip(v_["l"]) or {}).get("k") == "var" \
+                            and (strip(v_["r"]) or {}).get("k") == "int" and isinstance(e.get(strip(v_["l"]).get("id")), int):
+                        holds = (e[strip(v_["l"])["id"]] == strip(v_["r"])["v"]) == (v_["op"] == "==")
+                        if holds != tr:
+                            feas = False
+                if feas:
+                    stack.append((sc_["b"], frozenset(e.items())))
             continue
         for s_ in succs(fn, bid):
             stack.append((s_, frozenset(e.items())))
